@@ -1157,44 +1157,16 @@ def check_source_tie(run: Run, cov: dict):
     exhaustive correspondence remains the deciding tie; when it IS translated but the equivalence theorems no longer re-check, the
     functions the source denotes differ from the model's (the proofs are case analyses, insensitive to equivalent rewrites inside the
     subset): a broken proof obligation, reported unless a concrete failing input is reported instead."""
-    import shutil
     from harness import pysrc
     from harness.common import REPO
 
-    t0 = time.time()
-    rec = {"files": ["src/spox/_shape.py", "src/spox/_type_system.py"],
-           "functions": ["_broadcast_elem", "Unknown.__le__", "Constant.__le__", "Shape.__le__", "Type._subtype", "Tensor._subtype",
-                         "Sequence._subtype", "Optional._subtype"]}
+    rec = pysrc.check_tie(
+        run, "C13/source-tie/equivalence-theorems",
+        "_broadcast_elem / Unknown.__le__ / Constant.__le__ / Shape.__le__ (src/spox/_shape.py) and Type/Tensor/Sequence/Optional._subtype "
+        "(src/spox/_type_system.py)",
+        lambda: pysrc.translate((REPO / "src/spox/_shape.py").read_text(), (REPO / "src/spox/_type_system.py").read_text()),
+        "SrcGen.v", "SrcFacts.v", 4)
     cov["source_tie"] = rec
-    try:
-        text, info = pysrc.translate((REPO / "src/spox/_shape.py").read_text(), (REPO / "src/spox/_type_system.py").read_text())
-    except pysrc.Unsupported as e:
-        rec.update(translated=False, reason=str(e)[:400])
-        run.notes.append("source tie (translator): the current source text is outside the translated subset: " + str(e)[:200])
-        return
-    except Exception as e:  # noqa: BLE001
-        rec.update(translated=False, reason=f"{type(e).__name__}: {e}"[:400])
-        run.notes.append("source tie (translator): could not read / parse the source: " + rec["reason"][:200])
-        return
-    sc = run.scratch() / "srcgen"
-    sc.mkdir(parents=True, exist_ok=True)
-    (sc / "SrcGen.v").write_text(text)
-    shutil.copy(COQ / "gen" / "SrcFacts.v", sc / "SrcFacts.v")
-    rc1, out1 = sh(f"timeout 300 coqc -R {COQ} Spox -R {sc} Gen {sc}/SrcGen.v", timeout=320)
-    rc2, out2 = (1, "") if rc1 != 0 else sh(f"timeout 300 coqc -R {COQ} Spox -R {sc} Gen {sc}/SrcFacts.v", timeout=320)
-    closed = out2.count("Closed under the global context")
-    rec.update(translated=True, sha256=info["sha256"], dropped_isinstance_guards=info["dropped_guards"], generated_lines=text.count("\n"),
-               generated_definitions_compile=rc1 == 0, equivalence_theorems=4, equivalence_theorems_checked=closed if rc2 == 0 else 0,
-               axioms="none" if closed == 4 and rc2 == 0 else "n/a", wall_s=round(time.time() - t0, 1))
-    if rc1 != 0 or rc2 != 0 or closed != 4:
-        rec["coqc_output"] = (out1 + out2)[-1200:]
-        # the source text was translated, but the functions it denotes are no longer provably the model's: a broken proof obligation.
-        # The exhaustive correspondence and the direct oracles below search for a concrete failing input; if they find one, that is
-        # what gets reported, otherwise this is reported with no-failing-input-found.
-        run.fail("proof", "C13/source-tie/equivalence-theorems",
-                 "the Gallina functions generated from the current source text of _broadcast_elem / Natural.__le__ / Shape.__le__ / "
-                 "_subtype are no longer proved equal to the model's (coq/gen/SrcFacts.v does not re-check)",
-                 {"coqc_output": rec["coqc_output"], "generated": text, "sha256": info["sha256"]})
 
 
 def run(run: Run) -> int:
